@@ -166,6 +166,9 @@ pub fn c04_setup() -> Vec<Action> {
 
 #[derive(Clone, Debug)]
 pub struct C04Case {
+    /// index of the commit whose final sync is made to fail (it returns an error; its header has
+    /// reached the file, so the new state is visible)
+    pub fsync_fault: Option<usize>,
     pub chain: Vec<usize>,
     pub readers: usize,
     pub dumps: usize,
@@ -210,8 +213,9 @@ pub fn c04_run(case: &C04Case, base: &Base, path: &str, prefix: &[u8], policy: R
         let commits_done = commits_done.clone();
         let obs = obs.clone();
         let chain_ops: Vec<&'static [Op]> = specs.iter().map(|s| leak_ops(s)).collect();
+        let fsync_fault = case.fsync_fault;
         bodies.push(Box::new(move |_ctx: &Ctx| {
-            for ops in chain_ops {
+            for (ci, ops) in chain_ops.into_iter().enumerate() {
                 let tx = match db.tx(true) {
                     Ok(tx) => tx,
                     Err(e) => {
@@ -223,9 +227,35 @@ pub fn c04_run(case: &C04Case, base: &Base, path: &str, prefix: &[u8], policy: R
                     obs.lock().unwrap().errors.push(format!("writer: op panicked: {}", p));
                     return;
                 }
-                if let Err(e) = tx.commit() {
-                    obs.lock().unwrap().errors.push(format!("writer: commit failed: {:?}", e));
-                    return;
+                let inject = fsync_fault == Some(ci);
+                if inject {
+                    crate::iosim::with_plan(|p| {
+                        p.armed = true;
+                        p.calls = 0;
+                        p.call_kinds.clear();
+                        p.fault_fired = false;
+                        p.fault = Some(crate::iosim::Fault::nth(crate::iosim::Kind::Fsync, 1, libc::EIO));
+                    });
+                }
+                let res = tx.commit();
+                let fired = inject
+                    && crate::iosim::with_plan(|p| {
+                        p.armed = false;
+                        p.fault = None;
+                        p.fault_fired
+                    })
+                    .unwrap_or(false);
+                match res {
+                    Ok(()) if !fired => {}
+                    Err(_) if fired => {} // expected: the error is reported, the state is visible
+                    Ok(()) => {
+                        obs.lock().unwrap().errors.push("writer: the commit whose final sync failed returned Ok".into());
+                        return;
+                    }
+                    Err(e) => {
+                        obs.lock().unwrap().errors.push(format!("writer: commit failed: {:?}", e));
+                        return;
+                    }
                 }
                 commits_done.fetch_add(1, Ordering::SeqCst);
             }
@@ -331,29 +361,33 @@ fn c04_cases(tier: Tier) -> Vec<(C04Case, usize)> {
     // every chain of two commits x one reader
     for a in 0..nm {
         for b in 0..nm {
-            v.push((C04Case { chain: vec![a, b], readers: 1, dumps: 2 }, if tier == Tier::Quick { 2 } else { 3 }));
+            v.push((C04Case { fsync_fault: None, chain: vec![a, b], readers: 1, dumps: 2 }, if tier == Tier::Quick { 2 } else { 3 }));
         }
     }
     // chains of three commits against one reader at two preemptions: a reader that begins in the
     // middle of the first commit and stays open across the next two
     if tier == Tier::Quick {
         for chain in [vec![0, 3, 5], vec![5, 2, 3], vec![1, 0, 2], vec![2, 5, 3]] {
-            v.push((C04Case { chain, readers: 1, dumps: 2 }, 2));
+            v.push((C04Case { fsync_fault: None, chain, readers: 1, dumps: 2 }, 2));
         }
     }
+    // a commit whose final sync fails in the middle of the chain, with a reader around
+    for (chain, at) in [(vec![0, 3, 5], 0usize), (vec![5, 2, 3], 1), (vec![1, 0, 2], 0)] {
+        v.push((C04Case { fsync_fault: Some(at), chain, readers: 1, dumps: 2 }, 2));
+    }
     // asymmetric chains of three, two readers
-    v.push((C04Case { chain: vec![0, 3, 5], readers: 2, dumps: 2 }, if tier == Tier::Quick { 1 } else { 2 }));
-    v.push((C04Case { chain: vec![5, 2, 3], readers: 2, dumps: 2 }, if tier == Tier::Quick { 1 } else { 2 }));
+    v.push((C04Case { fsync_fault: None, chain: vec![0, 3, 5], readers: 2, dumps: 2 }, if tier == Tier::Quick { 1 } else { 2 }));
+    v.push((C04Case { fsync_fault: None, chain: vec![5, 2, 3], readers: 2, dumps: 2 }, if tier == Tier::Quick { 1 } else { 2 }));
     if tier == Tier::Thorough {
         for a in 0..nm {
             for b in 0..nm {
                 for c in 0..nm {
-                    v.push((C04Case { chain: vec![a, b, c], readers: 1, dumps: 2 }, 2));
+                    v.push((C04Case { fsync_fault: None, chain: vec![a, b, c], readers: 1, dumps: 2 }, 2));
                 }
             }
         }
-        v.push((C04Case { chain: vec![0, 3, 5, 2], readers: 1, dumps: 3 }, 3));
-        v.push((C04Case { chain: vec![3, 0, 2, 5], readers: 2, dumps: 2 }, 2));
+        v.push((C04Case { fsync_fault: None, chain: vec![0, 3, 5, 2], readers: 1, dumps: 3 }, 3));
+        v.push((C04Case { fsync_fault: None, chain: vec![3, 0, 2, 5], readers: 2, dumps: 2 }, 2));
     }
     v
 }
@@ -572,7 +606,7 @@ pub fn c04_case_infos(tier: Tier) -> Vec<CaseInfo> {
     let menu = c04_menu();
     c04_cases(tier)
         .iter()
-        .map(|(c, bound)| CaseInfo { label: format!("chain{:?}-r{}-c{}", c.chain, c.readers, bound), describe: json!({"writer_chain": c.chain.iter().map(|&m| menu[m].iter().map(|o| o.to_json()).collect::<Vec<_>>()).collect::<Vec<_>>(), "readers": c.readers, "dumps_per_reader": c.dumps, "preemption_bound": bound}) })
+        .map(|(c, bound)| CaseInfo { label: format!("chain{:?}{}-r{}-c{}", c.chain, c.fsync_fault.map(|i| format!("-fsyncfail@{}", i)).unwrap_or_default(), c.readers, bound), describe: json!({"writer_chain": c.chain.iter().map(|&m| menu[m].iter().map(|o| o.to_json()).collect::<Vec<_>>()).collect::<Vec<_>>(), "readers": c.readers, "dumps_per_reader": c.dumps, "preemption_bound": bound}) })
         .collect()
 }
 
